@@ -38,3 +38,8 @@ chk("C11", "model_checking",
     "(a) All histories up to the depth bound over 19 actions (identity events, epoch macro, 8 reorganisation actions). After every transition a follower holding only the genesis identity state replays every diff the node serves (GetIdentityDiff) exactly like protocol/fast.go, for the restarted node and for a never-restarted node that went through the reorgs; identity root per height and the resulting validator view must match. (b) WriteTreeTo2/ReadTreeFrom2 round trip (root, contents, byte-identical re-export) for every explored state and synthetic trees around SnapshotBlockSize. (c) every single-bit flip, byte substitution and truncation of small archives and every member drop/duplicate/swap of multi-member ones: accepted => advertised root and contents, refused => empty target, never panic/hang.",
     "Crash model for (c) is single-fault; multi-fault corruptions are outside the bound.",
     "DESIGN.md 5/C11", "chainmc+enum")
+chk("C09", "fault_enumeration",
+    "write-log prefix (crash point) enumeration of the real AddBlock / ResetTo+AddBlock on a logging database, for every operation of an explicit-state search over histories",
+    "For every block insertion and every fork switch of every explored history (BFS over 11 actions: txs with receipts, identity updates, snapshot blocks, the epoch macro incl. the epoch-finishing block, 4 fork-switch actions; 4 scenarios incl. a 101-block chain where insertions prune old tree versions) every prefix of the recorded write log is crash-tested: normal start-up, head roots == loaded trees, head within the retained window and on the reference chain, catch-up to the reference head and roots, canonical / identity-diff / tx indexes equal the reference's; a clean restart changes nothing observable.",
+    "Crash model: prefix of the write log, batches atomic (goleveldb journal); torn single writes and reordering below LevelDB out of scope; AtomicSwitchToPreliminary not driven yet.",
+    "DESIGN.md 5/C09", "chainmc+crashdb")
